@@ -357,4 +357,26 @@ theorem build_spec (ir : IrSet) (r : Remote) (h : mkRemote ir = .ok r) (st md : 
       intro hm; rw [List.contains_iff_mem.mpr hm] at hs'; cases hs'
     simp [hm]
 
+/-! ### non-vacuity: a concrete IR set loads, and `build_spec`'s two sides compute to the same command on it -/
+
+def demoIr : IrSet :=
+  { id := cs!"ELEC7022", onOffType := 1,
+    waves := [⟨cs!"aa", cs!"P0", cs!"00"⟩, ⟨cs!"ar22_f1", cs!"P1", cs!"A1"⟩, ⟨cs!"ar22", cs!"P2", cs!"A2"⟩, ⟨cs!"ar30_f0_d1", cs!"P3", cs!"A3"⟩,
+              ⟨cs!"on_ar22_f1", cs!"P4", cs!"A4"⟩, ⟨cs!"ah20", cs!"P5", cs!"A5"⟩, ⟨cs!"off", cs!"P6", cs!"A6"⟩, ⟨cs!"FUN_d1", cs!"P7", cs!"A7"⟩] }
+example : (match mkRemote demoIr with
+    | .ok r => r.supportedModes == ["AUTO", "COOL", "HEAT"] && r.minTemp == 20 && r.maxTemp == 30 && r.onOffType && r.separatedSwing
+    | .error _ => false) = true := by decide +kernel
+/-- COOL 22 °C, fan LOW, swing ON, device currently OFF, toggle remote: the toggle code of the most specific stored key -/
+example : (match mkRemote demoIr with
+    | .ok r => decide (buildCommand r "ON" "COOL" 22 "LOW" "ON" (some "OFF") = mkBreezeCommand (payloadHex cs!"P4|A4"))
+    | .error _ => false) = true := by decide +kernel
+/-- 35 °C is clamped to the set's maximum (30), where no LOW-fan code is stored: falls back to … nothing stored under `ar30` → KeyError -/
+example : (match mkRemote demoIr with
+    | .ok r => decide (buildCommand r "ON" "COOL" 35 "LOW" "OFF" (some "ON") = .error .keyError)
+    | .error _ => false) = true := by decide +kernel
+/-- an unsupported mode is refused -/
+example : (match mkRemote demoIr with
+    | .ok r => decide (buildCommand r "ON" "DRY" 22 "LOW" "OFF" none = .error .runtimeError)
+    | .error _ => false) = true := by decide +kernel
+
 end Props.C15
